@@ -622,7 +622,12 @@ def search(ctx):
 def replay(ctx, payload):
     import logging
     logging.getLogger("pymoca").setLevel(logging.ERROR)
-    case = dict(payload["case"])
+    cases = [payload["case"]] if "case" in payload else [d["case"] for d in payload.get("details", []) if d.get("case")]
+    for case in cases:
+        _replay_one(ctx, dict(case))
+
+
+def _replay_one(ctx, case):
     for k in ("text", "at", "var"):
         case.pop(k, None)
     check_case(ctx, case, ctx.driver("drv_c16"))
